@@ -26,11 +26,15 @@ def load_corpus(pid):
 def apply_edit(repo, edit):
     """-> overlay dict or None if not applicable."""
     overlay = {}
-    parts = edit["edits"] if "edits" in edit else [edit]
+    if "patch" in edit:
+        overlay = apply_patch(repo, edit["patch"])
+        if overlay is None:
+            return None
+    parts = edit["edits"] if "edits" in edit else ([edit] if "old" in edit else [])
     for p in parts:
         rel = p["file"]
         try:
-            src = overlay.get(rel) or repo.read_text(rel)
+            src = overlay[rel] if rel in overlay else repo.read_text(rel)
         except Exception:
             return None
         old, new = p["old"], p["new"]
@@ -51,6 +55,37 @@ def apply_edit(repo, edit):
             src = src[:idx] + new + src[idx + len(old):]
         overlay[rel] = src
     return overlay
+
+
+def apply_patch(repo, relpatch):
+    """Apply a unified diff (path relative to /verif) to the current text of the files it touches."""
+    import re
+    import shutil
+    import subprocess
+    import tempfile
+
+    root = os.path.dirname(os.path.dirname(os.path.abspath(__file__)))
+    path = os.path.join(root, relpatch)
+    if not os.path.exists(path):
+        return None
+    text = open(path).read()
+    files = sorted(set(re.findall(r"^\+\+\+ b/(\S+)", text, flags=re.M)))
+    tmp = tempfile.mkdtemp(prefix="spverif_patch_", dir="/tmp")
+    try:
+        for rel in files:
+            try:
+                src = repo.read_text(rel)
+            except Exception:
+                return None
+            os.makedirs(os.path.dirname(os.path.join(tmp, rel)), exist_ok=True)
+            with open(os.path.join(tmp, rel), "w") as fh:
+                fh.write(src)
+        r = subprocess.run(["patch", "-p1", "-s", "-d", tmp, "-i", path], capture_output=True, text=True)
+        if r.returncode != 0:
+            return None
+        return {rel: open(os.path.join(tmp, rel)).read() for rel in files}
+    finally:
+        shutil.rmtree(tmp, ignore_errors=True)
 
 
 def _run_one(args):
